@@ -54,6 +54,8 @@ def run(chk, replay=None):
             (("real", "d0_kskk", "helicity"), ["none", "dpd1"]),
             (("real", "lc_pkpi", "helicity"), ["none"]),
             (("real", "jpsi_4body", "helicity"), ["none"]),
+            # one listed topology, chains symmetrised over two identical particles WITH spin (listed finding)
+            (("real", "psi2s_ggjpsi_all", "helicity"), ["none", "dpd1"]),
         ]
     # synthetic four-body cascade / two-resonance single-topology reactions
     n4 = 0
